@@ -241,6 +241,7 @@ type Ctx struct {
 	strLits   map[string]string
 	heapKeys  map[string]Sort
 	qscope    *[]Term // inside a quantifier body: facts become local antecedents
+	NoWrapU64 bool                 // uint64 +,-,* mathematical, with range obligations at each operation
 	curBlk    int                  // index of the entry function's block being executed (-1: none)
 	anc       map[int]map[int]bool // anc[b][a]: block a has a forward path to block b
 }
